@@ -253,7 +253,11 @@ with tempfile.TemporaryDirectory() as d:
                    hrandoms=srow['randoms'], hmass=srow['N'] * params['Mpart'])
         for k, v in exp.items():
             if not np.isclose(hd[k][r], v, rtol=1e-12, atol=0): bad.append(f'row {{r}} (id {{i_}}): {{k}} = {{hd[k][r]}} but that halo has {{v}}')
-        if not np.allclose(hd['hpos'][r], srow['x_L2com']): bad.append(f'row {{r}}: hpos of another halo')
+        vecs = dict(hpos='x_L2com', hvel='v_L2com', hveldev='randoms_exp' if case['want_expvel'] else 'randoms_gaus_vrms')
+        for k, src_ in vecs.items():
+            if not np.allclose(hd[k][r], srow[src_]): bad.append(f'row {{r}} (id {{i_}}): {{k}} belongs to another halo')
+        for k, src_ in dict(hdeltac='deltac_rank', hfenv='fenv_rank', hshear='shear_rank').items():
+            if k in hd and not np.isclose(hd[k][r], srow[src_], rtol=1e-12, atol=0): bad.append(f'row {{r}} (id {{i_}}): {{k}} = {{hd[k][r]}} but that halo has {{srow[src_]}}')
     for p_, hid_ in enumerate(pd['phid']):
         if hid_ in hd['hid'] and hd['hid'][pd['pinds'][p_]] != hid_: bad.append(f'particle {{p_}} host index points to id {{hd["hid"][pd["pinds"][p_]]}}, records {{hid_}}')
 print('case', case, 'ids', [int(x) for x in (hd['hid'] if 'hd' in dir() else [])])
